@@ -36,11 +36,8 @@ def run_job(job):
 
         samples = []
 
-        nconf = [0]
-
         def on_confirmed(arguments, ret):
-            nconf[0] += 1
-            if len(samples) < 3 and nconf[0] in (1, 5, 25):
+            if len(samples) < 3:
                 from crosshair.core import deep_realize
 
                 samples.append(_jsonable(deep_realize(dict(arguments))))
@@ -53,6 +50,7 @@ def run_job(job):
             timeout=float(job["timeout"]),
             per_path_timeout=float(job.get("per_path_timeout", 20.0)),
             on_confirmed=on_confirmed,
+            sample_when=lambda n: n in (1, 5, 25),
         )
         res = dict(ex.__dict__)
         res["counterexample"] = _jsonable(res["counterexample"])
